@@ -701,7 +701,78 @@ def r12_15(chk):
     chk.floor("R12.15", 1, "AlignmentI.trim_stop_codons")
 
 
+DEGAPPERS = {"parse_out_gaps", "degap"}
+
+
+def r12_16(chk):
+    chk.rule("R12.16", "the frame of a sequence's end is counted in residues: in the sequence-level stop-codon methods (has_terminal_stop / trim_stop_codon, old and new type) the text whose length is taken modulo 3 and whose last three characters are looked up comes from the degapping step (parse_out_gaps() / degap()) -- trimming only the terminal gaps (rstrip) leaves leading and internal gaps in the count, so '--ATGCCCTAA' or 'ATG-CCATGA' is judged out of frame and keeps its stop")
+    from ..defuse import derived_names, expr_derives
+
+    n = 0
+    for rel in ("core/sequence.py", "core/new_sequence.py"):
+        m = chk.repo.module(rel)
+        for meth in ("has_terminal_stop", "trim_stop_codon"):
+            q = f"NucleicAcidSequenceMixin.{meth}"
+            try:
+                fn = m.func(q)
+            except Exception:
+                continue
+            mods = [b for b in walk_no_nested(fn) if isinstance(b, ast.BinOp) and isinstance(b.op, ast.Mod) and isinstance(b.right, ast.Constant) and b.right.value == 3 and isinstance(b.left, ast.Call) and norm(b.left.func) == "len" and b.left.args and isinstance(b.left.args[0], ast.Name)]
+            if not mods:
+                continue
+            degapped = set()
+            for st in walk_no_nested(fn):
+                if isinstance(st, ast.Assign) and any(isinstance(c, ast.Call) and isinstance(c.func, ast.Attribute) and c.func.attr in DEGAPPERS for c in ast.walk(st.value)):
+                    for t in st.targets:
+                        for x in ast.walk(t):
+                            if isinstance(x, ast.Name):
+                                degapped.add(x.id)
+            d = derived_names(fn, degapped) if degapped else set()
+            for b in mods:
+                n += 1
+                v = b.left.args[0].id
+                defs = [st for st in walk_no_nested(fn) if isinstance(st, ast.Assign) and any(isinstance(x, ast.Name) and x.id == v for t in st.targets for x in ast.walk(t))]
+                okd = v in degapped or (bool(defs) and all(expr_derives(st.value, d) or any(isinstance(c, ast.Call) and isinstance(c.func, ast.Attribute) and c.func.attr in DEGAPPERS for c in ast.walk(st.value)) for st in defs))
+                chk.decide(okd, "R12.16", key(m, q, f"len({v}) % 3 counts residues"), m.loc(b), f"`{v}` comes from the degapping step", f"`{norm(b)}` is taken of `{v}`, which is not the degapped sequence ({'; '.join(norm(st)[:60] for st in defs) or 'no definition'}): gaps before the end are counted as residues, so a gapped sequence whose stop is in frame is reported as having none")
+    chk.floor("R12.16", 2, "has_terminal_stop of both sequence types")
+
+
+def r12_17(chk):
+    chk.rule("R12.17", "stepping through the codons of a frame reaches the last complete codon: a loop `for i in range(start, len(x) - K, 3)` over x[i:i+3] has K <= 2 (K = 2 stops exactly after the last complete codon); K >= 3 never looks at the codon that ends flush with the sequence -- the position of a terminal stop")
+    n = 0
+    for rel in ("core/genetic_code.py", "core/new_genetic_code.py", "core/sequence.py", "core/new_sequence.py", "core/alignment.py", "core/new_alignment.py", "app/translate.py"):
+        m = chk.repo.module(rel)
+        for q, fn in m.all_functions():
+            for c in walk_no_nested(fn):
+                if not (isinstance(c, ast.Call) and norm(c.func) == "range" and len(c.args) == 3 and isinstance(c.args[2], ast.Constant) and c.args[2].value == 3):
+                    continue
+                stop = c.args[1]
+                if not (isinstance(stop, ast.BinOp) and isinstance(stop.op, ast.Sub) and isinstance(stop.left, ast.Call) and norm(stop.left.func) == "len" and isinstance(stop.right, ast.Constant) and isinstance(stop.right.value, int)):
+                    if isinstance(stop, ast.Call) and norm(stop.func) == "len":
+                        n += 1
+                        chk.ok("R12.17", key(m, q, f"codon loop {norm(c)[:40]}"), m.loc(c), "runs to len(x): the last (possibly short) slice is included")
+                    continue
+                n += 1
+                kk = stop.right.value
+                chk.decide(kk <= 2, "R12.17", key(m, q, f"codon loop {norm(c)[:40]}"), m.loc(c), f"stops at len - {kk}: the last complete codon is visited", f"`{norm(c)}` stops before the codon that ends flush with the sequence: get_stop_indices('ATGCCCGGGTAA') finds no stop although translate gives MPG*")
+    chk.floor("R12.17", 2, "the codon loops of GeneticCode.translate and of the sequence classes")
+
+
+def r12_18(chk):
+    chk.rule("R12.18", "get_stop_indices looks at every codon of the requested frame: it does not take the hits of a non-overlapping regex scan over all frames and keep those whose index is in frame (`finditer` + `index % 3`) -- a stop of another frame that overlaps an in-frame stop (TAG at 1 hides AGA at 2 in code 2) consumes the characters, so the in-frame stop is never reported although translate() gives '*' there")
+    m = chk.repo.module("core/genetic_code.py")
+    q = "GeneticCode.get_stop_indices"
+    fn = m.func(q)
+    scans = [c for c in walk_no_nested(fn) if isinstance(c, ast.Call) and isinstance(c.func, ast.Attribute) and c.func.attr in ("finditer", "findall", "search", "split")]
+    framed = [b for b in walk_no_nested(fn) if isinstance(b, ast.BinOp) and isinstance(b.op, ast.Mod) and isinstance(b.right, ast.Constant) and b.right.value == 3]
+    chk.decide(not (scans and framed), "R12.18", key(m, q, "every codon of the frame is examined"), m.loc(scans[0] if scans else fn), "no regex scan filtered by index % 3", f"`{norm(scans[0])[:50] if scans else ''}` finds non-overlapping hits in all frames and `{norm(framed[0]) if framed else ''}` keeps the in-frame ones: get_code(2).get_stop_indices('CTAGAT', start=2) is [] although codon 2..5 is AGA, a stop")
+    chk.floor("R12.18", 1, "get_stop_indices")
+
+
 def run(chk):
+    r12_18(chk)
+    r12_17(chk)
+    r12_16(chk)
     # stop-codon trimming of a new-type collection rebuilds its store: the orientation coherence rule of C03 (R03.17)
     # is what keeps 'terminal stops are trimmed as requested' true for a reverse complemented collection
     from . import c03
